@@ -73,9 +73,13 @@ class ModbusAsciiFramer(ModbusFramer):
         end = self._buffer.find(self._end)
         if end != -1:
             self._header['len'] = end
-            self._header['uid'] = int(self._buffer[1:3], 16)
-            self._header['lrc'] = byte2int(a2b_hex(self._buffer[end - 2:end])[0])
-            data = a2b_hex(self._buffer[start + 1:end - 2])
+            try:
+                self._header['uid'] = int(self._buffer[1:3], 16)
+                self._header['lrc'] = byte2int(a2b_hex(self._buffer[end - 2:end])[0])
+                data = a2b_hex(self._buffer[start + 1:end - 2])
+            except (ValueError, IndexError):
+                # not hex digits: a corrupted frame
+                return False
             return checkLRC(data, self._header['lrc'])
         return False
 
@@ -180,6 +184,9 @@ class ModbusAsciiFramer(ModbusFramer):
                     _logger.error("Not a valid unit id - {}, "
                                   "ignoring!!".format(self._header['uid']))
                     self.resetFrame()
+            elif self._header['len']:
+                # a complete frame failed its check: skip it, keep what follows
+                self.advanceFrame()
             else:
                 break
 
